@@ -997,7 +997,8 @@ async fn run_client<IO: Transport>(idx: usize, spec: ClientSpec, dial: Dialer<IO
     }
     if native && cfg_state == "ok" {
         // the proxy learns about a connection only when its accept task runs; give it a turn
-        for _ in 0..50 {
+        // (every configured client dials, so this ends at once unless the machine is overloaded)
+        for _ in 0..1000 {
             if dials.load(Ordering::SeqCst) > 0 {
                 break;
             }
